@@ -938,7 +938,7 @@ func init() {
 
 	mc.Register(&mc.Property{
 		ID: "C14", Level: "model_checking",
-		Predicates:  map[string]func(mc.Violation) bool{"same-bins-count-differs-in-its-last-bits": countLastBitsOnly},
+		Predicates:  map[string]func(mc.Violation) bool{"same-shape-numbers-differ-in-their-last-bits": countLastBitsOnly},
 		Rule:        "explicit-state BFS over histories that interleave mutations with read-only operations (rank / iteration / bin-stream reads, Encode, ToProto, EncodeProto, Copy, being the argument of MergeWith, DecodeAndMergeWith or ChangeMapping) on two-slot store worlds (all five store kinds) and sketch worlds (both variants); frame clause: across every transition the full observation of every slot the operation may not write is identical before and after (digest of the canonical observation stored with each state); copy clause: a fresh copy is observed identical to its original; independence follows from the frame clause applied to every later mutation of either side; plus every sequence of <= 3 (4) additions with NON-dyadic weights (running totals and compensated sums round) copied as a store of each kind and inside both sketch variants: the copy is observed identical to its original to the last bit and unchanged by a later addition to the original; distinct_nontrivial counts distinct contents",
 		Assumptions: []string{"observations are compared as canonical renderings of every public observer; the approximate sum of a plain sketch on a sparse store is left out because it depends on map iteration order"},
 		Shards: func(tier string) []mc.Shard {
